@@ -115,3 +115,23 @@ MANIFEST_TEXT["C12"] = {
     "text": "Bounded model checking under the ideal-hash model: ID(t1)==ID(t2) <=> effect-bearing content equal is decided by the solver over two fully symbolic transactions of one shape (the pre-images are produced by the real EncodeTo/hashAll code, so a field missing from the pre-image gives a concrete pair of transactions, replayed natively with real BLAKE2b); adjacent shapes, different resolution kinds, all derived-ID kinds and indices, v1/v2 sighashes across eras and purposes, block ID and v2 commitment likewise.",
     "note": "Trusted: ideal (injective) hash per input length, z3/cvc5, engine. The effect-bearing projection is an independent statement in the harness (harness/c12). Bounds as in evidence.bounds.",
 }
+
+PROPS["C14"] = {
+    "runs": [
+        {"pkg": "types", "harness": ["harness/c14/c14.go"], "run": "^VH_C14_",
+         "params": {"quick": {"depth": 1, "breadth": 2, "maxsigs": 3, "maxpres": 2}, "thorough": {"depth": 2, "breadth": 2, "maxsigs": 4, "maxpres": 3}},
+         "flags": {"quick": ["-maxpaths", "200000"], "thorough": ["-maxpaths", "3000000"]},
+         "must_reach": {"VH_C14_VerifyMatchesMeaning": ["accepted", "rejected"], "VH_C14_OpaqueKeepsAddress": ["end"], "VH_C14_AddressBindsPolicy": ["end"], "VH_C14_StandardAddress": ["end"]},
+         "tv_harnesses": ["VH_C14_VerifyMatchesMeaning", "VH_C14_OpaqueKeepsAddress", "VH_C14_StandardAddress"]},
+    ],
+    "tv_runs": {"quick": 4, "thorough": 16},
+    "bounds": {"quick": "all policy trees of depth <= 1 (threshold of <= 2 leaves; unlock conditions with <= 3 keys of 3 algorithm classes) over all 7 kinds, contents symbolic; 0..3 signatures, 0..2 preimages; height, median time, sighash symbolic",
+               "thorough": "depth <= 2, breadth 2, 0..4 signatures, 0..3 preimages"},
+    "outside": ["deeper/wider trees; the 1024-node and 255-child limits are exercised only through the evaluator's mirror of the rule (trees that large are outside the bound)", "string form (ParseSpendPolicy/String): see C20"],
+    "stubs": ["ed25519.Verify: ideal signature (sig == SIG(pk,msg), SIG determines pk and msg)", "sha256: ideal injective hash"],
+    "assumptions": COMMON_ASSUME + IDEAL_CRYPTO,
+}
+MANIFEST_TEXT["C14"] = {
+    "text": "Bounded model checking: for every policy tree shape within the bound (forked) with symbolic contents, witnesses, height, time and sighash, the real SpendPolicy.Verify is executed symbolically and compared on every path with an independently written evaluator of the policy's meaning (cursor-explicit, exact consumption). Address invariance under opaque substitution, address injectivity up to opaque commitment, and StandardAddress/StandardUnlockHash equivalence (including the two hard-coded leaf hashes, pinned to real BLAKE2b) are decided as term identities or by the solver.",
+    "note": "Trusted: ideal hash/signature models, z3, engine. Bounds: depth/breadth as in evidence.bounds.",
+}
